@@ -23,3 +23,27 @@ Example reach_instance :
   let deps := fun o => match o with 5 => [4; 2] | 4 => [3] | 2 => [1] | _ => [] end in
   find_reachable deps 10 [5; 2] = Some [3; 1; 4; 2; 5].
 Proof. vm_compute. reflexivity. Qed.
+
+(* ---------- a lookup racing a maintenance process (Model/PackLookup.v) ---------- *)
+From DV Require Import PackLookup PackLookupP.
+
+(* PackBasedObjectStore.get_raw for an object that exists throughout (as a loose file or in
+   a pack present), interleaved step by step -- every probe of a cached pack, every reading
+   of the pack directory, the look at the loose file -- with a maintenance process that adds
+   packs and then deletes packs and loose files without ever deleting the last copy: whatever
+   the reader had cached or opened before (stale entries included), whatever the order of the
+   steps, the lookup does not answer "missing" *)
+Theorem lookup_never_misses_during_a_repack : forall content o d c io do evs,
+  exists_o content o d = true ->
+  let '(_, r', _) := run content o true d (start c io do) evs in ctl r' <> Missing.
+Proof. exact lookup_never_misses_lemma. Qed.
+Print Assumptions lookup_never_misses_during_a_repack.
+
+(* "adds, then deletes" cannot be dropped: when a second maintenance run starts adding
+   before the lookup is over, three attempts are not enough *)
+Theorem lookup_during_two_repacks_refuted :
+  exists content o d c evs,
+    exists_o content o d = true /\
+    let '(_, r', bad) := run content o false d (start c [] []) evs in ctl r' = Missing /\ bad = false.
+Proof. exact two_repacks_starve_the_lookup. Qed.
+Print Assumptions lookup_during_two_repacks_refuted.
